@@ -78,7 +78,26 @@ Pkcs8Mid == <<\ha1,\h44,\h03,\h42,\h00>>
 Pkcs8(d, pt) == Pkcs8Head \o B32(d) \o Pkcs8Mid \o EncodePoint(pt, FALSE)
 \* template decoders: <<"ok", value>> when the document has exactly the canonical framing, <<"other">> otherwise (a general DER parser may
 \* accept other framings: the specification does not judge those beyond "the result must be a valid key")
-SpkiDecode(der) == IF Len(der) = 91 /\ SubSeq(der, 1, 26) = SpkiHead THEN DecodePoint(SubSeq(der, 27, 91)) ELSE <<"other">>
-Pkcs8Decode(der) == IF Len(der) = 138 /\ SubSeq(der, 1, 36) = Pkcs8Head /\ SubSeq(der, 69, 73) = Pkcs8Mid THEN <<"ok", SubSeq(der, 37, 68)>> ELSE <<"other">>
+\* the other framings OpenSSL writes for the same keys: the public key in SEC1 COMPRESSED form (-conv_form compressed), and an ECPrivateKey without
+\* the OPTIONAL publicKey field (RFC 5915).  A document of these shapes whose parts are consistent is a valid document for a valid key.
+SpkiHeadC == <<\h30,\h39,\h30,\h13,\h06,\h07,\h2a,\h86,\h48,\hce,\h3d,\h02,\h01,\h06,\h08,\h2a,\h81,\h1c,\hcf,\h55,\h01,\h82,\h2d,\h03,\h22,\h00>>
+SpkiC(pt) == SpkiHeadC \o EncodePoint(pt, TRUE)
+Pkcs8Alg == <<\h02,\h01,\h00,\h30,\h13,\h06,\h07,\h2a,\h86,\h48,\hce,\h3d,\h02,\h01,\h06,\h08,\h2a,\h81,\h1c,\hcf,\h55,\h01,\h82,\h2d>>
+Pkcs8HeadC == <<\h30,\h67>> \o Pkcs8Alg \o <<\h04,\h4d,\h30,\h4b,\h02,\h01,\h01,\h04,\h20>>
+Pkcs8MidC == <<\ha1,\h24,\h03,\h22,\h00>>
+Pkcs8C(d, pt) == Pkcs8HeadC \o B32(d) \o Pkcs8MidC \o EncodePoint(pt, TRUE)
+Pkcs8HeadN == <<\h30,\h41>> \o Pkcs8Alg \o <<\h04,\h27,\h30,\h25,\h02,\h01,\h01,\h04,\h20>>
+Pkcs8N(d) == Pkcs8HeadN \o B32(d)
+ASSUME Pkcs8Head = <<\h30,\h81,\h87>> \o Pkcs8Alg \o <<\h04,\h6d,\h30,\h6b,\h02,\h01,\h01,\h04,\h20>>
+ASSUME Len(Pkcs8HeadC) = 35 /\ Len(Pkcs8HeadN) = 35 /\ Len(SpkiHeadC) = 26
+\* template decoders: <<"ok", value>> when the document has exactly one of these framings, <<"other">> otherwise (a general DER parser may
+\* accept other framings: the specification does not judge those beyond "the result must be a valid key")
+SpkiDecode(der) == IF Len(der) = 91 /\ SubSeq(der, 1, 26) = SpkiHead THEN DecodePoint(SubSeq(der, 27, 91))
+                   ELSE IF Len(der) = 59 /\ SubSeq(der, 1, 26) = SpkiHeadC THEN DecodePoint(SubSeq(der, 27, 59)) ELSE <<"other">>
 ValidPrivate(dbytes) == Len(dbytes) = 32 /\ BFromBE(dbytes) # BZero /\ BLt(BFromBE(dbytes), BSub(NN, <<1>>))          \* d in [1, n-2]
+Pkcs8Decode(der) == IF Len(der) = 138 /\ SubSeq(der, 1, 36) = Pkcs8Head /\ SubSeq(der, 69, 73) = Pkcs8Mid THEN <<"ok", SubSeq(der, 37, 68)>>
+                    ELSE IF Len(der) = 105 /\ SubSeq(der, 1, 35) = Pkcs8HeadC /\ SubSeq(der, 68, 72) = Pkcs8MidC /\ ValidPrivate(SubSeq(der, 36, 67))
+                            /\ SubSeq(der, 73, 105) = EncodePoint(MulN(BFromBE(SubSeq(der, 36, 67)), G), TRUE) THEN <<"ok", SubSeq(der, 36, 67)>>
+                    ELSE IF Len(der) = 67 /\ SubSeq(der, 1, 35) = Pkcs8HeadN THEN <<"ok", SubSeq(der, 36, 67)>>
+                    ELSE <<"other">>
 =============================================================================
